@@ -35,6 +35,7 @@ pub struct TreeCase {
     pub expected_probe_depths: Vec<usize>,
     pub feats: BTreeMap<&'static str, u64>,
     pub max_depth: usize,
+    pub avoid_known: bool,
 }
 
 struct Sink {
@@ -76,6 +77,7 @@ pub struct Gen<'r> {
     macros: Vec<(String, String)>,
     next_marker: u32,
     next_file: u32,
+    next_macro: u32,
     group_depth: usize,
     /// true = already in the \else branch
     conds: Vec<bool>,
@@ -92,6 +94,9 @@ pub struct Gen<'r> {
     feats: BTreeMap<&'static str, u64>,
     simple: Vec<SimpleFile>,
     cur_simple: bool,
+    /// keep clear of the trigger predicates of the known findings: \endinput only as the last
+    /// thing on its line, no zero-byte files
+    avoid_known: bool,
 }
 
 fn ends_with_control_word(buf: &str) -> bool {
@@ -126,6 +131,7 @@ impl<'r> Gen<'r> {
             macros: vec![],
             next_marker: 0,
             next_file: 0,
+            next_macro: 0,
             group_depth: 0,
             conds: vec![],
             expected: vec![],
@@ -141,6 +147,7 @@ impl<'r> Gen<'r> {
             feats: BTreeMap::new(),
             simple: vec![],
             cur_simple: true,
+            avoid_known: false,
         }
     }
 
@@ -330,7 +337,7 @@ impl<'r> Gen<'r> {
         let w_iffalse_fi = if low { 0 } else { 3 };
         let w_else_fi = if self.conds.last() == Some(&false) { 5 } else { 0 };
         let w_fi = if self.conds.is_empty() { 0 } else { 6 };
-        let w_macro = if ctx.body || ctx.ended || low || self.macros.len() >= 4 { 0 } else { 6 };
+        let w_macro = if ctx.body || ctx.ended || low || self.next_macro >= 4 { 0 } else { 6 };
         let w_probe = 4;
         let w_relax = 2;
         let weights = [
@@ -419,7 +426,8 @@ impl<'r> Gen<'r> {
     }
 
     fn gen_macro_call(&mut self, sink: &mut Sink, ctx: &mut FileCtx) {
-        let name = format!("m{}", (b'A' + self.macros.len() as u8) as char);
+        let name = format!("m{}", (b'A' + self.next_macro as u8) as char);
+        self.next_macro += 1;
         self.feat("macro_call");
         put(&mut sink.cur, &format!("\\{name}"));
         let mut body = Sink::new(false);
@@ -466,6 +474,13 @@ impl<'r> Gen<'r> {
             if self.gen_item(sink, ctx, f) == Flow::LineEnded {
                 return;
             }
+            if self.avoid_known && ctx.ended {
+                // nothing but blanks behind an executed \endinput
+                if self.rng.chance(1, 3) {
+                    self.emit_blank(sink);
+                }
+                return;
+            }
             if self.rng.chance(1, 2) {
                 self.emit_blank(sink);
             }
@@ -492,7 +507,7 @@ impl<'r> Gen<'r> {
             72..=88 => 3,
             _ => 4,
         };
-        if spine && depth < self.target_depth && n_lines == 0 {
+        if (self.avoid_known || (spine && depth < self.target_depth)) && n_lines == 0 {
             n_lines = 1;
         }
         let mut sink = Sink::new(true);
@@ -543,6 +558,7 @@ impl<'r> Gen<'r> {
 
     pub fn tree(mut self) -> TreeCase {
         self.target_depth = self.rng.weighted(&[4, 10, 18, 24, 22, 22]);
+        self.avoid_known = self.rng.chance(3, 5);
         self.items_left = 20 + self.rng.below(50) as i32;
         self.files_left = 2 + self.rng.below(10) as i32;
         let mut sink = Sink::new(true);
@@ -605,6 +621,7 @@ impl<'r> Gen<'r> {
             expected_probe_depths: self.probes,
             feats: self.feats,
             max_depth: self.max_depth_seen,
+            avoid_known: self.avoid_known,
         }
     }
 }
